@@ -195,6 +195,12 @@ func init() {
 		evAdd("acqbad")
 		return err
 	})
+	// vpeek: looks ANOTHER variable up through the public Ctx.Get and leaves its own value alone (Go-only checks of C11)
+	dyntpl.RegisterModFn("vpeek", "", func(ctx *dyntpl.Ctx, buf *any, val any, args []any) error {
+		_ = ctx.Get("w")
+		_ = ctx.Get("nosuchvar.x")
+		return nil
+	})
 	dyntpl.RegisterModFn("vfail", "", func(ctx *dyntpl.Ctx, buf *any, val any, args []any) error { return errUserFail })
 	dyntpl.RegisterCondFn("veq", func(ctx *dyntpl.Ctx, args []any) bool {
 		if len(args) < 2 {
